@@ -46,6 +46,7 @@ Definition crank (pc : cpc) : nat :=
   | TrigS _ s => S (rk_err s) | TrigW _ s => S (Nat.max (rk_ok s) (rk_err s))
   | Rot1 r => rk_rot1 r | Rot2 r => rk_rot2 r
   | OT0 _ => 3 | OT1 _ => 3 | OT2 _ => 20 | OT3 _ => 19 | OT4 _ => 18 | OT5 _ => 17 | OTE _ => 3 | OTfail _ => 2
+  | OT4b _ => 7 | OT6 _ => 6 | OT7 _ => 5 | OT7d _ => 4 | OT8 _ => 3
   | LB1 => 16 | LB2 => 15 | LB3 _ => 14 | LB4 => 13 | LB5 => 10
   | CM0 _ => 12 | CM1 _ => 19 | CM2 _ => 18 | CM3 _ => 17 | CM4 _ => 16 | CM5 _ _ => 15 | CM6 _ _ => 14
   | CM6c _ => 13 | CM5f _ => 13 | CM7 _ => 8 | CM8 _ => 7 | CM8b _ => 6 | CM9 _ => 4 | CM10 _ => 3
@@ -636,3 +637,30 @@ Proof.
   destruct (grun_keeps l N s s' R HC S G) as (A & B & C & D). split; [lia|].
   intro ST. apply close_complete; auto.
 Qed.
+
+(* ------------------------------------------------------------------ the code before repair fb021ae
+
+   OpenTransaction (client 0) passes the closed test and takes the write lock; Close (client 1) sets closed, closes
+   closeC and reads db.tr == nil; OpenTransaction publishes db.tr and -- old code -- returns the transaction: Close
+   waits for the write lock, which belongs to a transaction on a closed DB, until its owner discards it.  On the
+   same schedule the repaired code stands in front of tr.lk.Lock() of its own clean-up (closeC was closed), and
+   nine good steps later both calls have returned. *)
+Definition trace_D9 : list action :=
+  [ACli 0 4 0; ACli 0 1 0; ACli 0 0 0; ACli 1 7 0; ACli 1 0 0; ACli 1 0 0; ACli 1 0 0; ACli 1 1 0;
+   ACli 0 2 0; ACli 0 1 0; ACli 0 0 0; ACli 0 0 0; AM 0; AM 0; AT 0; AT 0; AT 1; ACE 1].
+Definition trace_D9_rest : list action :=
+  [ACli 0 0 0; ACli 0 0 0; ACli 0 0 0; ACli 0 0 0; ACli 0 0 0; ACli 1 0 0; ACli 1 0 0; ACli 1 0 0; ACli 1 0 0].
+Definition summary9 (v : variant) (o : option state) :=
+  match o with
+  | Some s => Some (cli s 0, cli s 1, wl s, trown s, mc s, tc s, ce s,
+                    match step v s (ACli 1 0 0) with Some _ => true | None => false end)
+  | None => None
+  end.
+Example late_transaction_refuted :
+  summary9 unfixed_D9 (run unfixed_D9 init trace_D9) = Some (IdleTr, CL4, WTr, Some 0, MDone, TDone, E_done, false) /\
+  summary9 fixed (run fixed init trace_D9) = Some (OT6 XUser, CL4, WTr, Some 0, MDone, TDone, E_done, false) /\
+  match run fixed init trace_D9 with
+  | Some s => match grun s trace_D9_rest with Some s' => Some (cli s' 0, cli s' 1, wl s', trown s') | None => None end
+  | None => None
+  end = Some (Idle, Idle, WClosed, None).
+Proof. repeat split; vm_compute; reflexivity. Qed.
